@@ -307,6 +307,12 @@ def r3_site_shapes(ctx):
             out.append(unproven("C05.R3", key, t.where(), "wrapper %s not in the argument table" % w))
             continue
         ex = R6_EXEMPT.get((fk, w))
+        if ex is None:
+            # keyed by the enclosing function: a closure rewritten as a local fn / straight-line code is the same site
+            fkn = re.sub(r"(::\{closure#\d+\})+$", "", fk)
+            for (f2, w2), e2 in R6_EXEMPT.items():
+                if w2 == w and re.sub(r"(::\{closure#\d+\})+$", "", f2) == fkn and f2 != fkn:
+                    ex = e2
         verdicts = []
         for (di, pi) in pairs:
             fdc = pp.classify_fd_arg(t, di)
